@@ -158,24 +158,27 @@ def traced_session(items, ending):
     """items: list of str (raw line) or callable(answers)->str (line built from the engine's earlier
     answers); ending: 'eof' | 'quit' | ('partial', text).  Returns (transcript, entries, problem):
     transcript = what the process printed from `uciok` on (+ 'exit N'), entries = the script as the
-    model must see it (raw line, U+001E, the engine's answer for go lines)."""
+    model must see it (raw line, U+001E, the engine's answer for go lines), and the exact bytes written
+    to the process's standard input."""
     e = Engine(binary=C.ENGINE_TRACE, env={"WALLEYE_VERIF_TRACE": "1"})
     transcript = []
     entries = ["uci"]
     answers = []
+    sent = ["uci\n"]          # exactly the bytes written to the process
     try:
         e.send("uci")
         lines, ok = e.read_until(lambda l: l.startswith("verifstate "), 10.0)
         if not ok:
-            return None, None, "no state trace after the handshake (hook H5 missing?)"
+            return None, None, "no state trace after the handshake (hook H5 missing?)", ""
         seen = [l for _, l in lines]
         if "uciok" not in seen:
-            return None, None, "no uciok"
+            return None, None, "no uciok", ""
         transcript = seen[seen.index("uciok"):]
         alive = True
         for it in items:
             line = it(answers) if callable(it) else it
             e.send(line)
+            sent.append(line + "\n")
             lines, ok = e.read_until(lambda l: l.startswith("verifstate "), 10.0)
             got = [l for _, l in lines]
             transcript += got
@@ -190,9 +193,11 @@ def traced_session(items, ending):
             if ending == "quit":
                 e.send("quit")
                 entries.append("quit")
+                sent.append("quit\n")
             elif isinstance(ending, tuple):
                 e.send_raw(ending[1].encode("utf-8"))
                 entries.append(ending[1])
+                sent.append(ending[1])
                 e.close_stdin()
             else:
                 e.close_stdin()
@@ -204,6 +209,6 @@ def traced_session(items, ending):
                 entries[-1] += SEP + (ans[-1].split(" ")[1] if " " in ans[-1] else "")
         rc = e.wait_exit(5.0)
         transcript.append("exit %s" % ("none" if rc is None else (rc if rc >= 0 else 128 - rc)))
-        return transcript, entries, None
+        return transcript, entries, None, "".join(sent)
     finally:
         e.kill()
